@@ -150,5 +150,61 @@ class FilesPart(Part):
         return res
 
 
+class LongHistory(Part):
+    name = "long_histories"
+    desc = "one long request history per configuration (horizon, not exhaustive): early answers stay what a fresh instance gives"
+
+    def __init__(self, tier, seed):
+        self.tier, self.seed = tier, seed
+
+    def cases(self):
+        n = 6000 if self.tier == "quick" else 40000
+        out = []
+        for fam in ("4", "6"):
+            for B in (0, 8):
+                out.append({"fam": fam, "B": B, "env": ["md5", "saltForTest"], "n": n})
+        out.append({"fam": "4", "B": 0, "env": ["md5", "seed%d" % self.seed], "n": n,
+                    "prefixes": ["10.0.0.0/8", "200.0.0.0/7"], "networks": ["10.9.0.0/16"]})
+        return out
+
+    def run(self, cfg):
+        from props import ipdom
+
+        res = Res()
+        L = ipdom.width(cfg)
+        mask = (1 << L) - 1
+        an = ipdom.make(cfg)
+        probes = [((0x9E3779B97F4A7C15F39CC0605CEDC835 * (i + 1)) >> 3) & mask for i in range(40)]
+        probes += [int(__import__("ipaddress").ip_address(x)) for x in
+                   (("10.11.12.13", "192.168.1.77", "172.16.5.9", "10.9.8.7") if cfg["fam"] == "4" else ("2001:db8::1",))]
+        want = {}
+        for p in probes:
+            want[p] = (ipdom.make(cfg).anonymize(p), ipdom.make(cfg).deanonymize(p))
+        x = 12345 + self.seed
+        for i in range(cfg["n"]):
+            x = (x * 6364136223846793005 + 1442695040888963407) & ((1 << 128) - 1)
+            a = (x >> 7) & mask
+            if i % 3 == 2:
+                an.deanonymize(a)
+            else:
+                an.anonymize(a)
+            res.transitions += 1
+            if i % 500 == 499 or i == cfg["n"] - 1:
+                for p in probes:
+                    res.evals += 1
+                    got = (an.anonymize(p), an.deanonymize(p))
+                    if got != want[p]:
+                        res.violation("answer-changes-after-many-requests|" + cfg["fam"],
+                                      "cfg %r: after %d requests address %d answers %r, a fresh instance %r" % (
+                                          {k: v for k, v in cfg.items() if k != "n"}, i + 1, p, got, want[p]), cfg)
+                        return res
+        res.states = 1
+        res.nt((cfg["fam"], cfg["B"], repr(cfg.get("prefixes"))))
+        res.out(len(getattr(an, "cache", ())))
+        res.exhaustive = True
+        res.samples.append({"cfg": {k: v for k, v in cfg.items()}, "requests": cfg["n"], "probes": len(probes)})
+        return res
+
+
 def parts(tier, seed):
-    return [GraphPart(tier, seed), FilesPart(tier, seed)]
+    return [GraphPart(tier, seed), FilesPart(tier, seed), LongHistory(tier, seed)]
